@@ -452,7 +452,7 @@ def r6(ctx):
     n18 = 0
     for o in sub18.obligations:
         k = o["key"].split(":", 1)[1]
-        if k.startswith(("unused-suppression edits join", "diffs stay ordered", "match_rule_diff_on_file keeps")):
+        if k.startswith(("unused-suppression edits join", "diffs stay ordered", "match_rule_diff_on_file keeps")) or "not re-sorted on its way to the accept loop" in k:
             n18 += 1
             ctx.ob("R6", k, o["ok"], o["detail"], where=o["where"], nontrivial=o.get("nontrivial", True))
     ctx.floor("R6", "payload-construction obligations shared with C18", n18, 3)
